@@ -39,6 +39,7 @@ class World:
         self.order = []
         self.failed = {}  # id -> exception type name (construction raised)
         self.owned = []  # [node_id, label, array, fingerprint]: caller-owned raw arrays handed to constructors
+        self._arg_seq = 0
         self.passed = {}  # node_id -> ids of nodes passed to its constructor
 
     # -- caller-owned arrays (invariant I1) ---------------------------------------------------------
@@ -95,7 +96,7 @@ class World:
         """-> list of (node_id, label) whose caller-owned array / list / object changed since it was handed over"""
         bad = []
         for rec in self.owned:
-            node_id, label, arr, fp, saved = rec
+            node_id, label, arr, fp, saved = rec[:5]
             if isinstance(arr, list):
                 now = self._seq_fp(arr, saved)
             elif isinstance(arr, np.ndarray):
@@ -113,6 +114,26 @@ class World:
             if now != fp:
                 bad.append((node_id, label, fp, now, rec))
         return bad
+
+    def release_args(self):
+        """
+        A caller that hands a temporary to a query (a freshly made array, list or request object) usually lets go of it afterwards.
+        Every second argument record is released once the event it belonged to has been audited, so that its memory really is
+        freed and later allocations can land on the same address - state keyed on `id()` of an argument only misbehaves then.
+        The other half stays alive (and audited) for the rest of the run, as a caller that keeps its arrays would have it.
+        """
+        keep = []
+        n = 0
+        for rec in self.owned:
+            if isinstance(rec[1], str) and rec[1].startswith("arg:"):
+                n += 1
+                if len(rec) == 5:
+                    rec.append(self._arg_seq)
+                    self._arg_seq += 1
+                if rec[5] % 2 == 1:
+                    continue
+            keep.append(rec)
+        self.owned = keep
 
     @staticmethod
     def restore_owned(rec):
